@@ -44,11 +44,15 @@ Theorem C10_errors_are_exactly_the_panics : forall sched callss,
   Permutation (errs (g_state (fst st))) (all_panics A (snd st)).
 Proof. exact (errors_are_panics info A accepts debug_args cfg). Qed.
 
-(* Layer B refines Layer A: a call whose atomic steps run back to back is the sequential call *)
+(* Layer B refines Layer A: a call whose atomic steps run back to back is the sequential call - also for a composite
+   single-use value, whose slots are emptied one after the other (the hypothesis: no further slot of a value is empty
+   while its first one is full, which holds in every reachable state: C12_single_use_value_has_one_owner) *)
 Theorem C10_atomic_call_refines_sequential_call : forall g m a,
-  snd (drive info A accepts debug_args cfg 4 g (start_call info A accepts debug_args cfg m a)) =
+  (forall m i j l, leaf_taken (g_leaf g) (m, i, j, l) = true -> taken (g_state g) m i j = true) ->
+  let fuel := (4 + mi_more_leaves (info m))%nat in
+  snd (drive info A accepts debug_args cfg fuel g (start_call info A accepts debug_args cfg m a)) =
     Some (snd (call info A accepts debug_args cfg (g_state g) m a)) /\
-  g_state (fst (drive info A accepts debug_args cfg 4 g (start_call info A accepts debug_args cfg m a))) =
+  g_state (fst (drive info A accepts debug_args cfg fuel g (start_call info A accepts debug_args cfg m a))) =
     fst (call info A accepts debug_args cfg (g_state g) m a).
 Proof. exact (atomic_call_is_call info A accepts debug_args cfg). Qed.
 
